@@ -3,7 +3,12 @@
 import subprocess, sys
 from concurrent.futures import ThreadPoolExecutor
 par = int(sys.argv[1])
-jobs = [(p, v) for p in sys.argv[2:] for v in "ab"]
+args = sys.argv[2:]
+variants = "ab"
+if args and args[0].startswith("--variants="):
+    variants = args[0].split("=", 1)[1]
+    args = args[1:]
+jobs = [(p, v) for p in args for v in variants]
 def run(j):
     r = subprocess.run(["/verif/tools/confirm_seed.py", j[0], j[1]], capture_output=True, text=True)
     line = (r.stdout.strip().splitlines() or [r.stderr.strip()[-300:]])[-1]
